@@ -44,6 +44,8 @@ FILE *slu_v_get_out(void);
 void  slu_v_set_events(int mask);              /* bit0 mem events, bit1 column events, bit2 phase events, bit3 refine */
 int   slu_v_events(void);
 void  slu_v_set_poison(int on);
+void  slu_v_phases_reset(void);                /* phase events (P:Phase) of the current call: collected, printed as "phases":[...] */
+void  slu_v_phases_json(FILE *f);
 void  slu_v_hold(int on);                      /* park events while the harness writes one trace line */
 /* scheduler yield point for the multi-threaded harness (called from slu_vhook and the allocator) */
 extern void (*slu_v_yield)(const char *where);
